@@ -92,7 +92,7 @@ func main() {
 					vars := diffrun.DecodeVars(op.Vars)
 					for pi, base := range []univ.SeedPlan{
 						{Seed: uint64(opSeed), ErrPermille: 80, NullPermille: 80, DirPermille: 60, MaxList: 4},
-						{Seed: uint64(opSeed) + 1, ErrPermille: 250, NullPermille: 100, MaxList: 3},
+						{Seed: uint64(opSeed) + 1, ErrPermille: 200, ListPermille: 80, NullPermille: 100, MaxList: 3},
 					} {
 						for sm := 0; sm < len(schedNames); sm++ {
 							p := base
